@@ -109,7 +109,7 @@ func (st *c14State) drawNode(i int, lowVersion bool) *specs.DeviceNode {
 		dn.Major = int64(1 + src.Intn(200))
 		dn.Minor = int64(src.Intn(32))
 	case 3: // container path differs from host path
-		dn.Path = fmt.Sprintf("/dev/container%d", i)
+		dn.Path = messy(src, fmt.Sprintf("/dev/container%d", i))
 		dn.HostPath = host
 	case 4: // permissions
 		dn.Permissions = []string{"r", "rw", "rwm"}[src.Intn(3)]
@@ -171,6 +171,28 @@ func baseOCI(src interface{ Intn(int) int }) *oci.Spec {
 		s.Process.User.UID = 1001
 	}
 	return s
+}
+
+// messy returns, one time in four, a valid but non-canonical spelling of an
+// absolute path (trailing slash, doubled slash, "/./", "/x/../"): code that
+// normalises a path must do so on its own copy, not on the cached Spec.
+func messy(src interface {
+	Intn(int) int
+	Bool(int, int) bool
+}, p string) string {
+	if !src.Bool(1, 4) {
+		return p
+	}
+	i := strings.LastIndex(p, "/")
+	switch src.Intn(4) {
+	case 0:
+		return p + "/"
+	case 1:
+		return "/" + p
+	case 2:
+		return p[:i] + "/." + p[i:]
+	}
+	return p[:i] + "/x/.." + p[i:]
 }
 
 func cloneOCI(s *oci.Spec) *oci.Spec {
@@ -247,10 +269,10 @@ func c14(r *core.Run) {
 			s.ContainerEdits.Env = append(s.ContainerEdits.Env, fmt.Sprintf("SPEC%d_%d=f%d", i, k, i))
 		}
 		for k, n := 0, src.Intn(4); k < n; k++ {
-			s.ContainerEdits.Mounts = append(s.ContainerEdits.Mounts, &specs.Mount{HostPath: fmt.Sprintf("/host/s%d_%d", i, k), ContainerPath: fmt.Sprintf("/ctr/s%d_%d", i, k)})
+			s.ContainerEdits.Mounts = append(s.ContainerEdits.Mounts, &specs.Mount{HostPath: messy(src, fmt.Sprintf("/host/s%d_%d", i, k)), ContainerPath: messy(src, fmt.Sprintf("/ctr/s%d_%d", i, k))})
 		}
 		for k, n := 0, src.Intn(4); k < n; k++ {
-			s.ContainerEdits.Hooks = append(s.ContainerEdits.Hooks, &specs.Hook{HookName: "prestart", Path: fmt.Sprintf("/bin/hook-s%d-%d", i, k)})
+			s.ContainerEdits.Hooks = append(s.ContainerEdits.Hooks, &specs.Hook{HookName: "prestart", Path: messy(src, fmt.Sprintf("/bin/hook-s%d-%d", i, k))})
 		}
 		nd := 1 + src.Intn(3)
 		for j := 0; j < nd; j++ {
@@ -260,10 +282,10 @@ func c14(r *core.Run) {
 				d.ContainerEdits.Env = append(d.ContainerEdits.Env, fmt.Sprintf("DEV%d_%d_%d=1", i, j, k))
 			}
 			if src.Bool(1, 3) {
-				d.ContainerEdits.Hooks = append(d.ContainerEdits.Hooks, &specs.Hook{HookName: "poststop", Path: fmt.Sprintf("/bin/hook-d%d-%d", i, j)})
+				d.ContainerEdits.Hooks = append(d.ContainerEdits.Hooks, &specs.Hook{HookName: "poststop", Path: messy(src, fmt.Sprintf("/bin/hook-d%d-%d", i, j))})
 			}
 			if src.Bool(1, 3) {
-				d.ContainerEdits.Mounts = append(d.ContainerEdits.Mounts, &specs.Mount{HostPath: fmt.Sprintf("/host/d%d_%d", i, j), ContainerPath: fmt.Sprintf("/ctr/d%d_%d", i, j)})
+				d.ContainerEdits.Mounts = append(d.ContainerEdits.Mounts, &specs.Mount{HostPath: messy(src, fmt.Sprintf("/host/d%d_%d", i, j)), ContainerPath: messy(src, fmt.Sprintf("/ctr/d%d_%d", i, j))})
 			}
 			nn := src.Intn(3)
 			for k := 0; k < nn; k++ {
